@@ -188,6 +188,8 @@ impl<
 {
     fn read(&mut self, buf: &mut [u8]) -> Result<usize, Self::Error> {
         if buf.is_empty() {
+            // nothing to transfer, but a closed handle is still a bad handle
+            self.volume_mgr.file_offset(self.raw_file)?;
             Ok(0)
         } else {
             Self::read(self, buf)
@@ -205,6 +207,8 @@ impl<
 {
     fn write(&mut self, buf: &[u8]) -> Result<usize, Self::Error> {
         if buf.is_empty() {
+            // nothing to transfer, but a closed handle is still a bad handle
+            self.volume_mgr.file_offset(self.raw_file)?;
             Ok(0)
         } else {
             Self::write(self, buf)?;
@@ -226,6 +230,8 @@ impl<
     > Seek for File<'_, D, T, MAX_DIRS, MAX_FILES, MAX_VOLUMES>
 {
     fn seek(&mut self, pos: SeekFrom) -> Result<u64, Self::Error> {
+        // the handle is judged before the offset is
+        self.volume_mgr.file_offset(self.raw_file)?;
         match pos {
             SeekFrom::Start(offset) => {
                 self.seek_from_start(offset.try_into().map_err(|_| Error::InvalidOffset)?)?
